@@ -6,6 +6,12 @@ import Qv.Proofs.ProblemsRest
 import Qv.Proofs.ProblemsGP
 import Qv.Proofs.ProblemsJS
 import Qv.Proofs.ProblemsSC
+import Qv.Proofs.ProblemsSCValid
+import Qv.Proofs.ProblemsJSFits
+import Qv.Proofs.ProblemsJSValid
+import Qv.Proofs.ProblemsJSCounter
+import Qv.Proofs.ProblemsGPTop
+import Qv.Proofs.ProblemsExist
 /-!
 # C10 — Problem classes encode their combinatorial problem faithfully
 
@@ -19,8 +25,17 @@ an endpoint with `x = 1`; `sqRes x S b = Σ_j (b_j - S_j·x)^2`, `Feasible x S b
 `IntList` integer entries; `chainSum p z qs = Σ_{q∈qs} J_q z_q z_{q+1}` with `J_q = -strength_q`.
 
 Proved at full strength here: T10.1 for all seven classes; T10.3 for NumberPartitioning, AlternatingSectorsChain,
-VertexCover, BILP (T10.2 in the forms stated).  SetCover, JobSequencing, GraphPartitioning: ground-state sentences by the
-enumeration oracle only (no theorem in this file claims them).
+VertexCover, BILP (T10.2 in the forms stated), and — second half of this file — for SetCover (`sc_ground_states`, Lucas'
+`B < A`), JobSequencing (`js_ground_states`, `A > B · max length`) and GraphPartitioning (`gp_ground_states`,
+`A > B · min(2·degree, N)/8` on simple graphs with weights in `[0, 1]`; the documented threshold is insufficient beyond
+that: `gp_threshold_weighted_counterexample`, `gp_threshold_bidirectional_counterexample`), each with (a) the energy at an
+encoded feasible solution, (b) the lower bound, (c) the ground states, the weak-threshold / default-weight sentence and the
+`is_solution_valid` iff.  Further vocabulary: `SC.Hit x α` a chosen set contains `α`, `SC.Covers x`, `SC.uncN x` number of
+elements not hit, `SC.enc y` the assignment encoding the choice `y` (counter registers filled in), `SC.Fits` every
+multiplicity fits its counter (true for the default `M`: `sc_fits_default`); `JS.load x w = Σ_j L_j x_{j,w}`, `JS.OneHot x`
+every job on exactly one worker, `JS.pen x = Σ_j (1 - Σ_w x_{j,w})^2`, `JS.NatLengths` lengths are natural numbers,
+`JS.Fits` `Σ L ≤ M` (true for the default `M`: `js_fits_default`); `GP.cutCost B z = B Σ_e w_e (1 - z_u z_v)/2`,
+`GP.Balanced z` `Σ z = 0`, `GP.WF` `order` enumerates the endpoints, `GP.UnitWeights`, `GP.Simple`.
 -/
 namespace Qv.C10
 open Qv Qv.Prob
@@ -254,10 +269,9 @@ example : IntList [1, 0, -2] := by
   · exact ⟨0, by norm_num⟩
   · exact ⟨-2, by norm_num⟩
 
-/-! ## SetCover, JobSequencing, GraphPartitioning — partial
+/-! ## SetCover, JobSequencing, GraphPartitioning — the closed energy forms (T10.1)
 
-For these three classes the ground-state sentences (T10.3) are **not** proved; they are checked by the enumeration
-oracle of `harness/c10.py` (a test).  Proved for every instance: the closed energy forms (T10.1) of all three. -/
+The ground-state sentences (T10.3) of these three classes follow below (sections "SetCover — ground states", …). -/
 
 /-- **T10.1, SetCover.** `⟦to_qubo(A, B)⟧x = B Σ_i w_i x_i + A Σ_α penalty_α(x)` on boolean points, where for the element
 `α` with index `ia` in `U` and `X_α = Σ_{i : α ∈ V_i} x_i` the penalty (`SC.elemPenalty`) is
@@ -305,5 +319,382 @@ example : ((JS.new [(0, 1), (1, 2)] 2 false none).toOption.bind
     (fun p => (p.toQubo none 1).toOption)).isSome = true := by decide +kernel
 example : ((GP.toQuso ⟨[((0, 1), 1), ((1, 2), 1/2), ((3, 3), 1)], [2, 0, 3, 1]⟩ none 1).toOption.isSome) = true := by
   decide +kernel
+
+/-! ## SetCover — ground states (Lucas 5.1, `0 < B < A`, every weight `≤ 1`) -/
+
+/-- **T10.3 (a), SetCover.** the assignment `enc y` that encodes a cover `y` (same decision bits, counter registers holding
+the multiplicities) is boolean, still a cover, and its energy is the cost `B Σ w_i y_i` -/
+theorem sc_energy_feasible (p : SC) (A B : Rat) (Q : Poly) (h : p.toQubo A B = .ok Q) (hwl : p.weights.length ≤ p.N)
+    (hfit : p.Fits) (y : Var → Rat) (hy : IsBool y) (hcy : p.Covers y) :
+    IsBool (p.enc y) ∧ (∀ i, i < p.N → p.enc y i = y i) ∧ p.Covers (p.enc y) ∧
+      eval (p.enc y) Q = B * dotFrom y p.weights 0 :=
+  ⟨sc_isBool_enc p hy, fun _ hi => sc_enc_dec p y hi, (sc_covers_enc p y).mpr hcy,
+    sc_energy_cover p A B Q h hwl hfit hy hcy⟩
+
+/-- **T10.3 (b), SetCover: the lower bound.** `0 ≤ B ≤ A`, every element in some set, every weight `≤ 1`: every boolean
+assignment `x` has energy at least the cost of some cover plus `(A - B)` for every element its chosen sets do not hit
+(and at least one element is not hit when `x` does not decode to a cover) -/
+theorem sc_lower_bound (p : SC) (A B : Rat) (hB : 0 ≤ B) (hAB : B ≤ A) (hcov : p.Coverable)
+    (hw : ∀ w ∈ p.weights, w ≤ 1) (Q : Poly) (h : p.toQubo A B = .ok Q) (x : Var → Rat) (hx : IsBool x) :
+    (∃ y, IsBool y ∧ p.Covers y ∧ B * dotFrom y p.weights 0 + (A - B) * (p.uncN x : Rat) ≤ eval x Q) ∧
+      (¬ p.Covers x → 1 ≤ p.uncN x) :=
+  ⟨Qv.Prob.sc_lower_bound p A B hB hAB hcov hw Q h x hx, fun hn => by
+    have := (sc_covers_iff_uncN p x).not.mp hn
+    omega⟩
+
+/-- **T10.3 (c), SetCover.** `0 < B < A` (the documented threshold), weights as the constructor keeps them (one per
+set, none above `1`), every element in some set, counters large enough (`SC.Fits`; the default `M`): every ground state
+of `to_qubo(A, B)` decodes to a cover, its energy is the weight `B Σ w_i x_i` of that cover, and no cover is lighter. -/
+theorem sc_ground_states (p : SC) (A B : Rat) (hB : 0 < B) (hAB : B < A) (hwl : p.weights.length ≤ p.N)
+    (hw : ∀ w ∈ p.weights, w ≤ 1) (hfit : p.Fits) (hcov : p.Coverable) (Q : Poly) (h : p.toQubo A B = .ok Q)
+    (x : Var → Rat) (hx : IsBool x) (hg : ∀ y, IsBool y → eval x Q ≤ eval y Q) :
+    p.Covers x ∧ eval x Q = B * dotFrom x p.weights 0 ∧
+      ∀ y, IsBool y → p.Covers y → dotFrom x p.weights 0 ≤ dotFrom y p.weights 0 := by
+  have enc := fun (y : Var → Rat) (hy : IsBool y) (hcy : p.Covers y) => sc_energy_cover p A B Q h hwl hfit hy hcy
+  have hcx : p.Covers x := by
+    by_contra hn
+    obtain ⟨y, hy, hcy, hle⟩ := Qv.Prob.sc_lower_bound p A B (le_of_lt hB) (le_of_lt hAB) hcov hw Q h x hx
+    have hu : (1 : Rat) ≤ (p.uncN x : Rat) := by
+      have := (sc_covers_iff_uncN p x).not.mp hn
+      exact_mod_cast Nat.one_le_iff_ne_zero.mpr this
+    have := hg _ (sc_isBool_enc p hy)
+    rw [enc y hy hcy] at this
+    nlinarith
+  have hle : B * dotFrom x p.weights 0 ≤ eval x Q := by
+    rw [sc_toQubo_eval p A B Q h x hx]
+    have h1 := sc_penalties_ge hx p
+    have h0 : (0 : Rat) ≤ (p.uncN x : Rat) := Nat.cast_nonneg _
+    have hA : 0 < A := lt_trans hB hAB
+    nlinarith
+  have hge := hg _ (sc_isBool_enc p hx)
+  rw [enc x hx hcx] at hge
+  refine ⟨hcx, le_antisymm hge hle, fun y hy hcy => ?_⟩
+  have := hg _ (sc_isBool_enc p hy)
+  rw [enc y hy hcy] at this
+  have : B * dotFrom x p.weights 0 ≤ B * dotFrom y p.weights 0 := le_trans hle this
+  exact le_of_mul_le_mul_left this hB
+
+/-- **T10.3, SetCover, weak threshold `0 ≤ B ≤ A`** (covers the default `A = 2, B = 1`): the encoding of every cover of
+least weight is a ground state, and the ground energy is `B ·` that weight. -/
+theorem sc_optimal_is_ground (p : SC) (A B : Rat) (hB : 0 ≤ B) (hAB : B ≤ A) (hwl : p.weights.length ≤ p.N)
+    (hw : ∀ w ∈ p.weights, w ≤ 1) (hfit : p.Fits) (hcov : p.Coverable) (Q : Poly) (h : p.toQubo A B = .ok Q)
+    (y : Var → Rat) (hy : IsBool y) (hcy : p.Covers y)
+    (hopt : ∀ y', IsBool y' → p.Covers y' → dotFrom y p.weights 0 ≤ dotFrom y' p.weights 0) :
+    (∀ x, IsBool x → eval (p.enc y) Q ≤ eval x Q) ∧ eval (p.enc y) Q = B * dotFrom y p.weights 0 := by
+  refine ⟨fun x hx => ?_, sc_energy_cover p A B Q h hwl hfit hy hcy⟩
+  rw [sc_energy_cover p A B Q h hwl hfit hy hcy]
+  obtain ⟨y', hy', hcy', hle⟩ := Qv.Prob.sc_lower_bound p A B hB hAB hcov hw Q h x hx
+  have h0 : (0 : Rat) ≤ (p.uncN x : Rat) := Nat.cast_nonneg _
+  have := mul_le_mul_of_nonneg_left (hopt y' hy' hcy') hB
+  nlinarith
+
+/-- **SetCover with the default weights `A = 2, B = 1` and the default `M`**, for every instance the constructor
+accepts in which every element lies in some set: every ground state decodes to a lightest cover with energy = its
+weight, and the encoding of every lightest cover is a ground state. -/
+theorem sc_default_weights (U : List Var) (V : List (List Var)) (w : Option (List Rat)) (lt : Bool) (p : SC)
+    (hp : SC.new U V w lt none = .ok p) (hcov : p.Coverable) (Q : Poly) (h : p.toQubo 2 1 = .ok Q) :
+    (∀ x, IsBool x → (∀ y, IsBool y → eval x Q ≤ eval y Q) →
+      p.Covers x ∧ eval x Q = 1 * dotFrom x p.weights 0 ∧
+        ∀ y, IsBool y → p.Covers y → dotFrom x p.weights 0 ≤ dotFrom y p.weights 0) ∧
+    (∀ y, IsBool y → p.Covers y → (∀ y', IsBool y' → p.Covers y' → dotFrom y p.weights 0 ≤ dotFrom y' p.weights 0) →
+      (∀ x, IsBool x → eval (p.enc y) Q ≤ eval x Q) ∧ eval (p.enc y) Q = 1 * dotFrom y p.weights 0) := by
+  obtain ⟨hwl, hw⟩ := sc_new_weights U V w lt none p hp
+  have hfit := sc_fits_default U V w lt p hp
+  exact ⟨fun x hx hg => sc_ground_states p 2 1 (by norm_num) (by norm_num) (le_of_eq hwl) hw hfit hcov Q h x hx hg,
+    fun y hy hcy hopt =>
+      sc_optimal_is_ground p 2 1 (by norm_num) (by norm_num) (le_of_eq hwl) hw hfit hcov Q h y hy hcy hopt⟩
+
+/-- **T10.2 (SetCover)** `is_solution_valid` on a converted solution (a set of indices into `V`): the union of the chosen
+sets equals `U` as a set; for a boolean assignment whose sets stay inside `U`: its decoding is valid iff it covers `U` -/
+theorem sc_valid_iff (p : SC) :
+    (∀ c : List Nat, p.validConv c = true ↔ ∀ a, a ∈ c.flatMap (fun i => p.V.getD i []) ↔ a ∈ p.U) ∧
+    (∀ x, IsBool x → (∀ v ∈ p.V, ∀ a ∈ v, a ∈ p.U) →
+      (p.validConv ((List.range p.N).filter (fun i => decide (x i ≠ 0))) = true ↔ p.Covers x)) :=
+  ⟨fun c => sc_validConv_iff p c, fun _ hx hsub => sc_validConv_chosen p hx hsub⟩
+
+/-- non-vacuity: `U = {0,1,2}`, `V = [{0,1},{2},{1,2}]`, both counters; the cover `{V_0, V_1}` -/
+def scEx (lt : Bool) : SC := ⟨[0, 1, 2], [[0, 1], [2], [1, 2]], [1, 1, 1], lt, 2⟩
+def scExY : Var → Rat := fun i => if i = 0 ∨ i = 1 then 1 else 0
+/-- the hypotheses of `sc_default_weights` are satisfiable: the constructor accepts the instance (default `M`) and the
+result is coverable -/
+example (lt : Bool) : ∃ p, SC.new [0, 1, 2] [[0, 1], [2], [1, 2]] none lt none = .ok p ∧ p.Coverable ∧
+    (p.toQubo 2 1).toOption.isSome = true := by
+  have hs : ∀ lt, ((SC.new [0, 1, 2] [[0, 1], [2], [1, 2]] none lt none).toOption.map
+      (fun p => (p.U, p.V, p.weights, p.logTrick, p.M))) = some ([0, 1, 2], [[0, 1], [2], [1, 2]], [1, 1, 1], lt, 2) := by
+    intro lt; cases lt <;> decide +kernel
+  cases hp : SC.new [0, 1, 2] [[0, 1], [2], [1, 2]] none lt none with
+  | error e => have := hs lt; rw [hp] at this; cases this
+  | ok p =>
+    have := hs lt
+    rw [hp] at this
+    simp only [Except.toOption, Option.map_some, Option.some.injEq, Prod.mk.injEq] at this
+    obtain ⟨h1, h2, h3, h4, h5⟩ := this
+    have hpe : p = scEx lt := by cases p; simp only [scEx] at *; simp [h1, h2, h3, h4, h5]
+    subst hpe
+    refine ⟨_, rfl, ?_, ?_⟩
+    · cases lt <;> unfold SC.Coverable <;> decide +kernel
+    · cases lt <;> decide +kernel
+example (lt : Bool) : (scEx lt).Coverable := by cases lt <;> unfold SC.Coverable <;> decide +kernel
+example (lt : Bool) : (scEx lt).Fits := by cases lt <;> unfold SC.Fits <;> decide +kernel
+example (lt : Bool) : (scEx lt).weights.length ≤ (scEx lt).N ∧ ∀ w ∈ (scEx lt).weights, w ≤ 1 := by
+  cases lt <;> exact ⟨by decide, by decide +kernel⟩
+example (lt : Bool) : ((scEx lt).toQubo 2 1).toOption.isSome = true := by cases lt <;> decide +kernel
+example : IsBool scExY := by intro i; unfold scExY; by_cases h : i = 0 ∨ i = 1 <;> simp [h]
+example (lt : Bool) : (scEx lt).Covers scExY := by
+  have h : ∀ lt a, a ∈ (scEx lt).U → ∃ i ∈ (scEx lt).filtered a 0, i = 0 ∨ i = 1 := by
+    intro lt; cases lt <;> decide +kernel
+  intro a ha
+  obtain ⟨i, hi, h01⟩ := h lt a ha
+  exact ⟨i, hi, by unfold scExY; simp [h01]⟩
+
+/-! ## JobSequencing — ground states (Lucas 6.3, `A > B · max length`, natural lengths, `m ≥ 1`, `Σ L ≤ M`) -/
+
+/-- **T10.3 (a), JobSequencing.** every assignment `y` of every job to exactly one worker has an encoding `x'` (workers `0`
+and a worker `w0` of largest load exchanged, slack registers holding the load differences) that is boolean, one-hot and
+has energy `B · load y w0 = B ·` makespan of `y` -/
+theorem js_energy_feasible (p : JS) (A : Option Rat) (B : Rat) (hm : 1 ≤ p.m) (hN : p.NatLengths) (hF : p.Fits)
+    (Q : Poly) (h : p.toQubo A B = .ok Q) (y : Var → Rat) (hy : IsBool y) (hoh : p.OneHot y) :
+    ∃ x', IsBool x' ∧ p.OneHot x' ∧ ∃ w0, w0 < p.m ∧ (∀ w, w < p.m → p.load y w ≤ p.load y w0) ∧
+      eval x' Q = B * p.load y w0 ∧ p.load x' 0 = p.load y w0 ∧ ∀ w, w < p.m → p.load x' w ≤ p.load y w0 := by
+  obtain ⟨x', hx', hoh', w0, hw0, hmax, he, h0, hw⟩ := js_ENC p (p.weightA A B) B hm hN hF y hy hoh
+  exact ⟨x', hx', hoh', w0, hw0, hmax, by rw [js_energy' p A B Q h x' hx']; exact he, h0, hw⟩
+
+/-- **T10.3 (b), JobSequencing: the lower bound.** `B ≥ 0`, weight in use `≥ B · max length`: every boolean `x` has energy
+at least `B ·` every load of some one-hot assignment `y` plus `(A - B · max length) · pen x`, and `pen x ≥ 1` when `x` is
+not one-hot -/
+theorem js_lower_bound (p : JS) (A : Option Rat) (B : Rat) (hm : 1 ≤ p.m) (hB : 0 ≤ B)
+    (hA : B * p.maxL ≤ p.weightA A B) (hN : p.NatLengths) (Q : Poly) (h : p.toQubo A B = .ok Q)
+    (x : Var → Rat) (hx : IsBool x) :
+    (∃ y, IsBool y ∧ p.OneHot y ∧
+      ∀ w, w < p.m → B * p.load y w + (p.weightA A B - B * p.maxL) * p.pen x ≤ eval x Q) ∧
+      (¬ p.OneHot x → 1 ≤ p.pen x) := by
+  refine ⟨?_, fun hn => js_pen_ge_one p hx hn⟩
+  rw [js_energy' p A B Q h x hx]
+  exact js_LB p (p.weightA A B) B hm hB hA hN x hx
+
+/-- **T10.3 (c), JobSequencing.** `B > 0`, weight in use `> B · max length` (the documented threshold): every ground state
+of `to_qubo(A, B)` puts every job on exactly one worker, its energy is `B ·` its makespan (`load x w1`, `w1` a worker of
+largest load), and no such assignment has a smaller makespan -/
+theorem js_ground_states (p : JS) (A : Option Rat) (B : Rat) (hm : 1 ≤ p.m) (hB : 0 < B)
+    (hA : B * p.maxL < p.weightA A B) (hN : p.NatLengths) (hF : p.Fits)
+    (Q : Poly) (h : p.toQubo A B = .ok Q) (x : Var → Rat) (hx : IsBool x)
+    (hg : ∀ x'', IsBool x'' → eval x Q ≤ eval x'' Q) :
+    p.OneHot x ∧ ∃ w1, w1 < p.m ∧ eval x Q = B * p.load x w1 ∧ (∀ w, w < p.m → p.load x w ≤ p.load x w1) ∧
+      ∀ y, IsBool y → p.OneHot y → ∃ w', w' < p.m ∧ p.load x w1 ≤ p.load y w' :=
+  js_ground_states_top p A B hm hB hA hN hF Q h x hx hg
+
+/-- **T10.3, JobSequencing, weak threshold `A ≥ B · max length`**: the encoding of every assignment of least makespan is
+a ground state with energy `B ·` that makespan -/
+theorem js_optimal_is_ground (p : JS) (A : Option Rat) (B : Rat) (hm : 1 ≤ p.m) (hB : 0 ≤ B)
+    (hA : B * p.maxL ≤ p.weightA A B) (hN : p.NatLengths) (hF : p.Fits)
+    (Q : Poly) (h : p.toQubo A B = .ok Q) (y : Var → Rat) (hy : IsBool y) (hoh : p.OneHot y)
+    (hopt : ∀ y', IsBool y' → p.OneHot y' → ∃ w', w' < p.m ∧ ∀ w, w < p.m → p.load y w ≤ p.load y' w') :
+    ∃ x', IsBool x' ∧ p.OneHot x' ∧ ∃ w0, w0 < p.m ∧ (∀ w, w < p.m → p.load y w ≤ p.load y w0) ∧
+      eval x' Q = B * p.load y w0 ∧ p.load x' 0 = p.load y w0 ∧ (∀ w, w < p.m → p.load x' w ≤ p.load y w0) ∧
+      ∀ x'', IsBool x'' → eval x' Q ≤ eval x'' Q :=
+  js_default_top p A B hm hB hA hN hF Q h y hy hoh hopt
+
+/-- **JobSequencing with the default weights (`A = None` = `B · max length`) and the default `M`**, for every instance the
+constructor accepts with natural lengths and at least one worker: the ground energy is `B ·` the least makespan and the
+encoding of every optimal assignment is a ground state -/
+theorem js_default_weights (lengths : List (Var × Rat)) (m : Nat) (lt : Bool) (p : JS)
+    (hp : JS.new lengths m lt none = .ok p) (hm : 1 ≤ p.m) (hN : p.NatLengths) (B : Rat) (hB : 0 ≤ B)
+    (Q : Poly) (h : p.toQubo none B = .ok Q) (y : Var → Rat) (hy : IsBool y) (hoh : p.OneHot y)
+    (hopt : ∀ y', IsBool y' → p.OneHot y' → ∃ w', w' < p.m ∧ ∀ w, w < p.m → p.load y w ≤ p.load y' w') :
+    ∃ x', IsBool x' ∧ p.OneHot x' ∧ ∃ w0, w0 < p.m ∧ (∀ w, w < p.m → p.load y w ≤ p.load y w0) ∧
+      eval x' Q = B * p.load y w0 ∧ p.load x' 0 = p.load y w0 ∧ (∀ w, w < p.m → p.load x' w ≤ p.load y w0) ∧
+      ∀ x'', IsBool x'' → eval x' Q ≤ eval x'' Q :=
+  js_default_none_top p B hm hB hN (js_fits_default lengths m lt p hp hN) Q h y hy hoh hopt
+
+/-- at the default `A = None` a ground state need **not** be feasible (one job of length 1, one worker: leaving it
+unassigned costs `A = 1`, assigning it `B · 1 = 1`) — the docstring's "guaranteed to satisfy the constraints" holds only
+in the sense of `js_default_weights` -/
+theorem js_default_tie_counterexample (Q : Poly) (h : jsTie.toQubo none 1 = .ok Q) :
+    (∀ x'', IsBool x'' → eval (fun _ => (0 : Rat)) Q ≤ eval x'' Q) ∧ eval (fun _ => (0 : Rat)) Q = 1 ∧
+      ¬ jsTie.OneHot (fun _ => (0 : Rat)) ∧ jsTie.NatLengths ∧ jsTie.Fits :=
+  js_default_tie Q h
+
+/-- with a user `M < Σ L` (`JS.Fits` violated) and `A = 4 > B · max length = 3` the unique ground state leaves the job
+unassigned: the hypothesis `Fits` of `js_ground_states` cannot be dropped -/
+theorem js_small_M_counterexample (Q : Poly) (h : jsSmallM.toQubo (some 4) 1 = .ok Q) :
+    (∀ x'', IsBool x'' → eval (fun _ => (0 : Rat)) Q ≤ eval x'' Q) ∧
+      (∀ x'', IsBool x'' → jsSmallM.OneHot x'' → eval (fun _ => (0 : Rat)) Q < eval x'' Q) ∧
+      ¬ jsSmallM.OneHot (fun _ => (0 : Rat)) ∧ jsSmallM.NatLengths ∧ ¬ jsSmallM.Fits ∧
+      (1 : Rat) * jsSmallM.maxL < jsSmallM.weightA (some 4) 1 :=
+  js_small_M Q h
+
+/-- **T10.2 (JobSequencing)** `is_solution_valid` on a converted solution (one job list per worker) holds iff every job
+occurs exactly once -/
+theorem js_valid_iff (p : JS) (c : List (List Var)) :
+    p.validConv c = true ↔ (c.flatMap id).Nodup ∧ ∀ j, j ∈ c.flatMap id ↔ j ∈ p.lengths.map Prod.fst :=
+  js_validConv_iff p c
+
+/-- the constructor with the default `M` accepts the example instance (`M = 2 · 2 = 4`) -/
+example : ((JS.new [(0, 1), (1, 2)] 2 true none).toOption.map (fun p => (p.lengths, p.m, p.logTrick, p.M))) =
+    some ((jsEx true).lengths, (jsEx true).m, (jsEx true).logTrick, (jsEx true).M) := by decide +kernel
+example (lt : Bool) : (jsEx lt).NatLengths ∧ (jsEx lt).Fits ∧ 1 ≤ (jsEx lt).m ∧ IsBool jsExY ∧ (jsEx lt).OneHot jsExY :=
+  ⟨jsEx_nat lt, jsEx_fits lt, by cases lt <;> decide, jsExY_bool, jsExY_onehot lt⟩
+example : ((jsEx true).toQubo (some 3) 1).toOption.isSome = true ∧
+    (1 : Rat) * (jsEx true).maxL < (jsEx true).weightA (some 3) 1 := by decide +kernel
+example : (jsTie.toQubo none 1).toOption.isSome = true ∧ (jsSmallM.toQubo (some 4) 1).toOption.isSome = true := by
+  decide +kernel
+
+/-! ## GraphPartitioning — ground states (Lucas 2.2, `A > B · min(2·degree, N)/8`, simple graph, weights in `[0, 1]`,
+`N` even) -/
+
+/-- **T10.3 (a), GraphPartitioning.** at a balanced spin state the energy is the cost `B ·` (weight of the cut) -/
+theorem gp_energy_feasible (p : GP) (A : Option Rat) (B : Rat) (L : Poly) (h : p.toQuso A B = .ok L) (z : Var → Rat)
+    (hz : IsSpin z) (hb : p.Balanced z) : eval z L = p.cutCost B z := by
+  rw [gp_eval_energy h hz]
+  unfold GP.energy
+  rw [show sumTo z p.numVars = 0 from hb]; ring
+
+/-- **T10.3 (b), GraphPartitioning: the lower bound.** weight in use `≥` the threshold: for every spin state there is a
+balanced one with at most its energy — strictly less when the state is unbalanced and the weight exceeds the threshold -/
+theorem gp_lower_bound (p : GP) (hwf : p.WF) (hu : p.UnitWeights) (hsimple : p.Simple) (A : Option Rat) (B : Rat)
+    (hB : 0 ≤ B) (L : Poly) (hL : p.toQuso A B = .ok L)
+    (hA : B * ((min (2 * p.degree) p.numVars : Nat) : Rat) / 8 ≤ p.weightA A B) (h : Nat) (hN : p.numVars = 2 * h)
+    (z : Var → Rat) (hz : IsSpin z) :
+    ∃ z', IsSpin z' ∧ p.Balanced z' ∧ eval z' L ≤ eval z L ∧
+      (B * ((min (2 * p.degree) p.numVars : Nat) : Rat) / 8 < p.weightA A B → ¬ p.Balanced z → eval z' L < eval z L) := by
+  obtain ⟨z', hz', hb', hle, hlt⟩ := gp_desc (A := p.weightA A B) (gp_flipOK_min hwf hu hsimple hB) hA hN hz
+  refine ⟨z', hz', hb', ?_, fun h1 h2 => ?_⟩
+  · rw [gp_eval_energy hL hz', gp_eval_energy hL hz]; exact hle
+  · rw [gp_eval_energy hL hz', gp_eval_energy hL hz]; exact hlt h1 h2
+
+/-- **T10.3 (c), GraphPartitioning.** `order` enumerates the vertices, simple graph, weights in `[0, 1]`, `N` even, `B ≥ 0`,
+weight in use above the documented threshold `B · min(2·degree, N)/8`: every ground state of `to_quso(A, B)` is balanced,
+its energy is `B ·` the weight of its cut, and no balanced partition has a lighter cut -/
+theorem gp_ground_states (p : GP) (hwf : p.WF) (hu : p.UnitWeights) (hsimple : p.Simple) (A : Option Rat) (B : Rat)
+    (hB : 0 ≤ B) (L : Poly) (hL : p.toQuso A B = .ok L)
+    (hA : B * ((min (2 * p.degree) p.numVars : Nat) : Rat) / 8 < p.weightA A B) (h : Nat) (hN : p.numVars = 2 * h)
+    (z : Var → Rat) (hz : IsSpin z) (hmin : ∀ z'' : Var → Rat, IsSpin z'' → eval z L ≤ eval z'' L) :
+    p.Balanced z ∧ eval z L = p.cutCost B z ∧
+      ∀ y : Var → Rat, IsSpin y → p.Balanced y → p.cutCost B z ≤ p.cutCost B y :=
+  gp_ground_states_top hwf hu hsimple hB hL hA hN hz hmin
+
+/-- **T10.3, GraphPartitioning, weak threshold** (weight in use `≥ B · min(2·degree, N)/8`): every balanced partition of
+least cut weight is a ground state with energy `B ·` that weight -/
+theorem gp_optimal_is_ground (p : GP) (hwf : p.WF) (hu : p.UnitWeights) (hsimple : p.Simple) (A : Option Rat) (B : Rat)
+    (hB : 0 ≤ B) (L : Poly) (hL : p.toQuso A B = .ok L)
+    (hA : B * ((min (2 * p.degree) p.numVars : Nat) : Rat) / 8 ≤ p.weightA A B) (h : Nat) (hN : p.numVars = 2 * h)
+    (y : Var → Rat) (hy : IsSpin y) (hyb : p.Balanced y)
+    (hopt : ∀ y' : Var → Rat, IsSpin y' → p.Balanced y' → p.cutCost B y ≤ p.cutCost B y') :
+    (∀ z : Var → Rat, IsSpin z → eval y L ≤ eval z L) ∧ eval y L = p.cutCost B y :=
+  gp_default_top hwf hu hsimple hB hL hA hN hy hyb hopt
+
+/-- **GraphPartitioning with the default weight `A = None`** (exactly the threshold): the ground energy is `B ·` the least
+balanced cut weight and every optimal balanced partition is a ground state -/
+theorem gp_default_weights (p : GP) (hwf : p.WF) (hu : p.UnitWeights) (hsimple : p.Simple) (B : Rat) (hB : 0 ≤ B)
+    (L : Poly) (hL : p.toQuso none B = .ok L) (h : Nat) (hN : p.numVars = 2 * h)
+    (y : Var → Rat) (hy : IsSpin y) (hyb : p.Balanced y)
+    (hopt : ∀ y' : Var → Rat, IsSpin y' → p.Balanced y' → p.cutCost B y ≤ p.cutCost B y') :
+    (∀ z : Var → Rat, IsSpin z → eval y L ≤ eval z L) ∧ eval y L = p.cutCost B y :=
+  gp_default_none_top hwf hu hsimple hB hL hN hy hyb hopt
+
+/-- **(partial: graphs with repeated / bidirectional edges)** without `Simple` the same holds above `B · degree / 4`
+(`= B · 2·degree / 8`: only the degree part of the documented minimum) -/
+theorem gp_ground_states_deg_partial (p : GP) (hwf : p.WF) (hu : p.UnitWeights) (A : Option Rat) (B : Rat)
+    (hB : 0 ≤ B) (L : Poly) (hL : p.toQuso A B = .ok L) (hA : B * (p.degree : Rat) / 4 < p.weightA A B) (h : Nat)
+    (hN : p.numVars = 2 * h) (z : Var → Rat) (hz : IsSpin z)
+    (hmin : ∀ z'' : Var → Rat, IsSpin z'' → eval z L ≤ eval z'' L) :
+    p.Balanced z ∧ eval z L = p.cutCost B z ∧
+      ∀ y : Var → Rat, IsSpin y → p.Balanced y → p.cutCost B z ≤ p.cutCost B y :=
+  gp_ground_states_deg_partial_top hwf hu hB hL hA hN hz hmin
+
+/-- the documented threshold is **insufficient for weights above 1**: one edge of weight `10`, `A = 1 > 1/4`: the
+unbalanced state `(1, 1)` has energy `4`, every balanced state `10` (same on the real code, also with `A = None`) -/
+theorem gp_threshold_weighted_counterexample :
+    ∃ L, GP.toQuso ⟨[((0, 1), 10)], [0, 1]⟩ (some 1) 1 = .ok L ∧
+      eval (fun _ => (1 : Rat)) L < eval (fun i => if i = 0 then (1 : Rat) else -1) L :=
+  Qv.Prob.gp_threshold_weighted_counterexample
+
+/-- … and **for an edge given in both directions** (`{(0,1), (1,0)}`: `N = 2`, degree `2`, threshold `1/4`), `A = 3/10`:
+energy `6/5` at `(1, 1)` against `2` at `(1, -1)` -/
+theorem gp_threshold_bidirectional_counterexample :
+    ∃ L, GP.toQuso ⟨[((0, 1), 1), ((1, 0), 1)], [0, 1]⟩ (some (3 / 10)) 1 = .ok L ∧
+      eval (fun _ => (1 : Rat)) L < eval (fun i => if i = 0 then (1 : Rat) else -1) L :=
+  Qv.Prob.gp_threshold_bidirectional_counterexample
+
+/-- **T10.2 (GraphPartitioning)** `is_solution_valid` on the assignment `[z_0 … z_{N-1}]` (duplicate-free vertex
+enumeration): accepted iff the partition is balanced -/
+theorem gp_valid_assignment (p : GP) (hnd : p.order.Nodup) (z : Var → Rat) (hz : IsSpin z) :
+    p.valid (enumSol z p.numVars) = .ok true ↔ p.Balanced z :=
+  gp_valid_iff_balanced p hnd hz
+
+example : gpPath4.WF ∧ gpPath4.UnitWeights ∧ gpPath4.Simple ∧ gpPath4.numVars = 2 * 2 :=
+  ⟨by unfold GP.WF; decide +kernel, by unfold GP.UnitWeights; decide +kernel, by unfold GP.Simple; decide +kernel,
+    by decide⟩
+example : (gpPath4.toQuso none 1).toOption.isSome = true ∧ (gpPath4.toQuso (some 1) 1).toOption.isSome = true := by
+  decide +kernel
+example : (1 : Rat) * ((min (2 * gpPath4.degree) gpPath4.numVars : Nat) : Rat) / 8 < gpPath4.weightA (some 1) 1 := by
+  decide +kernel
+example : ∃ L, gpPath4.toQuso (some 1) 1 = .ok L ∧ IsSpin gpPath4Sol ∧
+    ∀ z'' : Var → Rat, IsSpin z'' → eval gpPath4Sol L ≤ eval z'' L := gpPath4_ground
+
+/-! ## Ground states exist; the default-weight sentence for the five classes the property names
+
+"With the default weights the ground energy still equals the optimal cost and at least one ground state decodes to a
+feasible optimal solution for SetCover, VertexCover, NumberPartitioning, GraphPartitioning and JobSequencing." -/
+
+/-- every term list has a boolean and a spin ground state (finitely many labels occur): the "every ground state …"
+theorems above are never vacuous -/
+theorem ground_state_exists (Q : Poly) :
+    (∃ x, IsBool x ∧ ∀ y, IsBool y → eval x Q ≤ eval y Q) ∧ (∃ z, IsSpin z ∧ ∀ y, IsSpin y → eval z Q ≤ eval y Q) :=
+  ⟨exists_ground_bool Q, exists_ground_spin Q⟩
+
+/-- **NumberPartitioning, `A > 0` (default `A = 1`)**: a ground state exists; its energy is `A ·` the least squared
+difference of the two part sums -/
+theorem np_default_sentence (p : NP) (A : Rat) (hA : 0 < A) (L : Poly) (hL : p.toQuso A = .ok L) :
+    ∃ z, IsSpin z ∧ (∀ z', IsSpin z' → eval z L ≤ eval z' L) ∧ eval z L = A * (dotFrom z p.S 0) ^ 2 ∧
+      ∀ z', IsSpin z' → (dotFrom z p.S 0) ^ 2 ≤ (dotFrom z' p.S 0) ^ 2 := by
+  obtain ⟨z, hz, hg⟩ := exists_ground_spin L
+  exact ⟨z, hz, hg, np_toQuso_eval p A L z hz hL, (np_ground_states p A hA L hL z hz).mp hg⟩
+
+/-- **VertexCover, `A > B > 0` (default `A = 2, B = 1`)**: some ground state is a minimum vertex cover and the ground
+energy is `B ·` its size -/
+theorem vc_default_sentence (p : VC) (A B : Rat) (hB : 0 < B) (hAB : B < A) (Q : Poly) (h : p.toQubo A B = .ok Q) :
+    ∃ x, IsBool x ∧ (∀ y, IsBool y → eval x Q ≤ eval y Q) ∧ Covers x (idxEdges p.vertices p.edges) ∧
+      eval x Q = B * sumTo x p.numVars ∧
+      ∀ y, IsBool y → Covers y (idxEdges p.vertices p.edges) → sumTo x p.numVars ≤ sumTo y p.numVars := by
+  obtain ⟨x, hx, hg⟩ := exists_ground_bool Q
+  obtain ⟨h1, h2, h3⟩ := vc_ground_states p A B hB hAB Q h x hx hg
+  exact ⟨x, hx, hg, h1, h2, h3⟩
+
+/-- **SetCover, `A > B > 0` (default `A = 2, B = 1`)**: some ground state decodes to a lightest cover and the ground
+energy is `B ·` its weight -/
+theorem sc_default_sentence (p : SC) (A B : Rat) (hB : 0 < B) (hAB : B < A) (hwl : p.weights.length ≤ p.N)
+    (hw : ∀ w ∈ p.weights, w ≤ 1) (hfit : p.Fits) (hcov : p.Coverable) (Q : Poly) (h : p.toQubo A B = .ok Q) :
+    ∃ x, IsBool x ∧ (∀ y, IsBool y → eval x Q ≤ eval y Q) ∧ p.Covers x ∧ eval x Q = B * dotFrom x p.weights 0 ∧
+      ∀ y, IsBool y → p.Covers y → dotFrom x p.weights 0 ≤ dotFrom y p.weights 0 := by
+  obtain ⟨x, hx, hg⟩ := exists_ground_bool Q
+  obtain ⟨h1, h2, h3⟩ := sc_ground_states p A B hB hAB hwl hw hfit hcov Q h x hx hg
+  exact ⟨x, hx, hg, h1, h2, h3⟩
+
+/-- **JobSequencing, weight in use `≥ B · max length` (default `A = None`)**: some ground state `x'` puts every job on
+exactly one worker, worker `0` carries its largest load, the ground energy is `B ·` that makespan, and no assignment of
+every job to exactly one worker has a smaller makespan -/
+theorem js_default_sentence (p : JS) (A : Option Rat) (B : Rat) (hm : 1 ≤ p.m) (hB : 0 ≤ B)
+    (hA : B * p.maxL ≤ p.weightA A B) (hN : p.NatLengths) (hF : p.Fits) (Q : Poly) (h : p.toQubo A B = .ok Q) :
+    ∃ x', IsBool x' ∧ p.OneHot x' ∧ (∀ x'', IsBool x'' → eval x' Q ≤ eval x'' Q) ∧
+      eval x' Q = B * p.load x' 0 ∧ (∀ w, w < p.m → p.load x' w ≤ p.load x' 0) ∧
+      ∀ y', IsBool y' → p.OneHot y' → ∃ w', w' < p.m ∧ p.load x' 0 ≤ p.load y' w' :=
+  js_weak_sentence p A B hm hB hA hN hF Q h
+
+/-- **GraphPartitioning, weight in use `≥ B · min(2·degree, N)/8` (default `A = None`)**, simple graph with weights in
+`[0, 1]`, `N` even: some ground state is balanced, the ground energy is `B ·` its cut weight, and no balanced partition
+has a lighter cut -/
+theorem gp_default_sentence (p : GP) (hwf : p.WF) (hu : p.UnitWeights) (hsimple : p.Simple) (A : Option Rat) (B : Rat)
+    (hB : 0 ≤ B) (L : Poly) (hL : p.toQuso A B = .ok L)
+    (hA : B * ((min (2 * p.degree) p.numVars : Nat) : Rat) / 8 ≤ p.weightA A B) (h : Nat) (hN : p.numVars = 2 * h) :
+    ∃ y, IsSpin y ∧ p.Balanced y ∧ (∀ z : Var → Rat, IsSpin z → eval y L ≤ eval z L) ∧ eval y L = p.cutCost B y ∧
+      ∀ y' : Var → Rat, IsSpin y' → p.Balanced y' → p.cutCost B y ≤ p.cutCost B y' :=
+  gp_weak_sentence hwf hu hsimple hB hL hA hN
+
+/-- the default weights satisfy the hypotheses: `A = None` is `B · max length` resp. `B · min(2·degree, N)/8` -/
+example (p : JS) (B : Rat) : B * p.maxL ≤ p.weightA none B := le_refl _
+example (p : GP) (B : Rat) : B * ((min (2 * p.degree) p.numVars : Nat) : Rat) / 8 ≤ p.weightA none B :=
+  le_of_eq (gp_weightA_none p B).symm
+example : (0 : Rat) < 1 ∧ (1 : Rat) < 2 := by norm_num
 
 end Qv.C10
